@@ -508,7 +508,7 @@ def stress_campaign(out, pid, tier, focus, race=False):
     specs = stress_specs(rng, tier, focus)
     nproc = 8
     chunks = [specs[i::nproc] for i in range(nproc)]
-    tmo = 120 if tier == "quick" else 1500
+    tmo = 60 if tier == "quick" else 1500
     with ThreadPoolExecutor(nproc) as ex:
         results = list(ex.map(lambda c: run_pool(h, c, tmo), chunks))
     cancelled = unsettled = maxconc = 0
